@@ -32,7 +32,7 @@ ASSUMPTIONS = [
     "no backslashes in base or suffix text",
 ]
 
-TOKS = ["a", "é", "~", "/", "", "0", "1", "5", "12"]
+TOKS = ["a", "é", "~", "/", "", "0", "1", "5", "12", "50%25", "a "]
 OFFSETS = ["", "+1", "-1", "+2", "-2", "+10", "-10", "+12", "-12"]
 SUFFIXES = ["", "#", "/x", "/0", "/a~1b", "/~0", "/é", "/x/0"]
 
@@ -159,7 +159,7 @@ def t_exhaustive(shard, nshards, depth=3):
 
 def t_random(seed, n):
     stats = Stats()
-    tok = st.one_of(st.sampled_from(TOKS + ["10", "2", "-", "#", "+1"]),
+    tok = st.one_of(st.sampled_from(TOKS + ["10", "2", "-", "#", "+1", "a%2Fb", "%7E1", " c", "%", "%zz", "1 ", "\t"]),
                     st.text(alphabet=st.characters(codec="utf-8", exclude_categories=["Cs"], exclude_characters="\\"), max_size=4))
 
     def body(x):
